@@ -662,7 +662,12 @@ impl<'a> Runner<'a> {
             let mut lost = vec![];
             let mut starved = vec![];
             let mut maxwait = 0;
-            let bound = 4 * (peak as u64 + 2) * (g as u64 + 1);
+            // A woken child sits in a FIFO ready queue; every poll handles at least one entry ahead
+            // of it (a completion ends the poll) or up to the budget of entries (stale entries for
+            // vacant slots are skipped 61 at a time), and the groups take turns. So the wait is at
+            // most (entries ahead) x (groups): linear in the held children.
+            let stale = w.stale_backlog;
+            let bound = (peak as u64 + 2) * (g as u64 + 1) + ((stale + 60) / 61) * (g as u64 + 1) + 8;
             for i in w.live_children() {
                 if w.children[i as usize].needs_poll {
                     if last == Last::Pending && !task_woken {
